@@ -38,7 +38,9 @@ func init() {
 }
 
 func c12Doc(g *xgen.G) *xdoc.Doc {
-	switch g.Intn(6) {
+	switch g.Intn(7) {
+	case 6:
+		return g.NSTree(false) // siblings that share a local name under different prefixes
 	case 5:
 		return g.NameLikeTree(xgen.Names)
 	case 4:
